@@ -58,3 +58,10 @@ impl VConsensus {
         self.0.maintain_connection(ctx, peer).await
     }
 }
+
+impl VConsensus {
+    /// The wrapped state, for `crate::verif::node_state`.
+    pub(crate) fn state(&self) -> Arc<Network> {
+        self.0.clone()
+    }
+}
